@@ -711,6 +711,22 @@ def _oracle_polyline_once(p, V, closed, d, dv, kw, VE):
         if not (q.is_closed is r.is_closed and same_array(q.v, r.v) and np.asarray(q.v).dtype == np.float64):
             out.append((what, "deserialize(serialize()) differs from rounded(): %r %s vs %r %s" % (
                 np.asarray(q.v).tolist(), q.is_closed, np.asarray(r.v).tolist(), r.is_closed)))
+            continue
+        # the deserialized object is a Polyline like any other: rounding / serializing it again, at a coarser, the
+        # same, a finer and the default precision, rounds *its* vertices
+        qv = np.array(q.v, dtype=np.float64)
+        for d2 in sorted({max(dv - 2, 0), dv, dv + 3, None}, key=lambda z: -1 if z is None else z):
+            k2 = {} if d2 is None else {"decimals": d2}
+            try:
+                r2 = q.rounded(**k2)
+                s2 = q.serialize(**k2)
+            except Exception as e:
+                out.append(("polyline.second-generation/total", "rounded/serialize(%s) of a deserialized polyline raised %s(%s)" % (k2, type(e).__name__, e)))
+                continue
+            n0 = len(out)
+            rounding_violations(qv, r2.v, DEFAULT_DECIMALS if d2 is None else d2, "polyline.second-generation", out)
+            if len(out) == n0 and not (isinstance(s2, dict) and same_array(np.array(np.reshape(s2.get("vertices"), (-1, 3)), dtype=np.float64), r2.v)):
+                out.append(("polyline.second-generation/content", "serialize(%s) of a deserialized polyline is not its rounded(): %r" % (k2, s2)))
     return dedupe(out), s
 
 
@@ -783,6 +799,21 @@ def _oracle_plane_once(p, R, N, pd, dd, pdv, ddv, kw, VE):
         if not (same_array(q.reference_point, r0.reference_point) and same_array(q.normal, r0.normal)):
             out.append((what, "deserialize(serialize()) differs from rounded(): %r %r vs %r %r" % (
                 np.asarray(q.reference_point).tolist(), np.asarray(q.normal).tolist(), r0.reference_point.tolist(), r0.normal.tolist())))
+            continue
+        # the deserialized object is a Plane like any other: rounding it again rounds *its* reference point
+        qr = np.array(q.reference_point, dtype=np.float64)
+        pdv0 = kd.get("position_decimals", DEFAULT_DECIMALS)
+        for pd2 in sorted({max(pdv0 - 2, 0), pdv0, pdv0 + 3}):
+            try:
+                r2 = q.rounded(position_decimals=pd2)
+                s2 = q.serialize(position_decimals=pd2)
+            except Exception as e:
+                out.append(("plane.second-generation/total", "rounded/serialize(position_decimals=%d) of a deserialized plane raised %s(%s)" % (pd2, type(e).__name__, e)))
+                continue
+            n0 = len(out)
+            rounding_violations(qr, r2.reference_point, pd2, "plane.second-generation", out)
+            if len(out) == n0 and not (isinstance(s2, dict) and same_array(np.array(s2.get("referencePoint"), dtype=np.float64), r2.reference_point)):
+                out.append(("plane.second-generation/content", "serialize(position_decimals=%d) of a deserialized plane is not its rounded(): %r" % (pd2, s2)))
     return dedupe(out), [s, s0]
 
 
